@@ -169,7 +169,9 @@ impl<'r> G<'r> {
             format!("{}{}", self.r.pick(KW_PREFIXED), self.n)
         } else if k < 45 {
             format!("a$b{}", self.n)
-        } else if k < 55 && esc_ok && self.opts.escaped_ids {
+        } else if k < 55 && self.opts.escaped_ids && (esc_ok || self.r.chance(1, 3)) {
+            // (an escaped identifier may stand wherever an identifier may: names of functions, tasks, design elements,
+            // types, parameters, labels ... get one now and then, not only nets, variables, instances and ports)
             match self.r.below(4) {
                 0 => format!("\\e+{}*x", self.n),
                 1 => format!("\\module{}", self.n),
@@ -836,12 +838,16 @@ impl<'r> G<'r> {
             let w = self.fresh(true);
             self.decl(&w, "net");
             self.fact("NetDeclAssignment", &w);
-            if self.r.chance(1, 6) {
-                self.sym("[");
-                self.num("0");
-                self.sym(":");
-                self.num("3");
-                self.sym("]");
+            if self.r.chance(1, 5) {
+                // one dimension, now and then three or four (list elements of different widths in one declaration)
+                let nd = *self.r.pick(&[1usize, 1, 1, 2, 3, 4]);
+                for d in 0..nd {
+                    self.sym("[");
+                    self.num("0");
+                    self.sym(":");
+                    self.num(if d == 0 { "3" } else { "1" });
+                    self.sym("]");
+                }
             } else if !names.is_empty() && self.r.chance(1, 4) {
                 self.sym("=");
                 let nn = names.clone();
@@ -875,12 +881,16 @@ impl<'r> G<'r> {
             let v = self.fresh(true);
             self.decl(&v, "var");
             self.fact("VariableDeclAssignment", &v);
-            if self.r.chance(1, 6) {
-                self.sym("[");
-                self.num("0");
-                self.sym(":");
-                self.num("3");
-                self.sym("]");
+            if self.r.chance(1, 5) {
+                // one dimension, now and then three or four (list elements of different widths in one declaration)
+                let nd = *self.r.pick(&[1usize, 1, 1, 2, 3, 4]);
+                for d in 0..nd {
+                    self.sym("[");
+                    self.num("0");
+                    self.sym(":");
+                    self.num(if d == 0 { "3" } else { "1" });
+                    self.sym("]");
+                }
             } else if self.r.chance(1, 5) && t != "string" && t != "real" {
                 self.sym("=");
                 self.nump(&["0", "1", "'0"]);
